@@ -90,6 +90,9 @@ class Adts:
         head = type_head(ty)
         segs = head.split('::')
         last = segs[-1]
+        if last == 'Ordering' and ('cmp' in head or '::' not in head):
+            return {'kind': 'enum', 'variants': [{'name': 'Less', 'index': 0, 'discr': -1, 'fields': []}, {'name': 'Equal', 'index': 1, 'discr': 0, 'fields': []},
+                                                 {'name': 'Greater', 'index': 2, 'discr': 1, 'fields': []}], 'path': 'Ordering'}
         if last in BUILTIN_ENUMS and ('std::' in head or 'core::' in head or '::' not in head):
             return {'kind': 'enum', 'variants': [{'name': n, 'index': i, 'discr': None, 'fields': []} for i, n in enumerate(BUILTIN_ENUMS[last])], 'path': last}
         cands = []
